@@ -261,6 +261,9 @@ def main(argv=None):
     seed = int(os.environ.get("VERIF_SEED", "1"))
     t0 = time.time()
 
+    import warnings
+
+    warnings.filterwarnings("ignore", category=UserWarning)
     try:
         import symmray
 
